@@ -24,6 +24,11 @@
 (*                          root (chdir without try/finally); the operations   *)
 (*                          that follow name their paths relative to the       *)
 (*                          directory the process was started in (seed R13)    *)
+(*   Variant "rootcache"  : rebuild remembers, for the rest of the process, the  *)
+(*                          root it computed for a candidate (path, size) and  *)
+(*                          trusts it in later rebuilds - a candidate that got *)
+(*                          other bytes of the same length in between is then  *)
+(*                          placed although nothing of it verifies (seed R23)  *)
 (* hist is a history variable (excluded from the fingerprint by VIEW) used to  *)
 (* emit behaviours for replay with -simulate.                                  *)
 EXTENDS Core, TLC, FiniteSetsExt
@@ -36,9 +41,11 @@ Targets == {"r", "r/d", "r/a"}
 Absent == -1
 Under(t) == CASE t = "r" -> Files [] t = "r/d" -> {"b", "c"} [] t = "r/a" -> {"a"}
 
-VARIABLES fs, gen, stamp, memo, hc, idx, metas, last, nops, hist, cwd
-vars == <<fs, gen, stamp, memo, hc, idx, metas, last, nops, hist, cwd>>
-View == <<fs, gen, stamp, memo, hc, idx, metas, last, nops, cwd>>
+VARIABLES fs, gen, stamp, memo, hc, idx, metas, last, nops, hist, cwd,
+          made,     \* what the metafile of each target records: file -> <<size, generation>> (<<-1, -1>>: not listed)
+          rc        \* "rootcache": candidate file -> the (size, generation) its remembered root was computed from
+vars == <<fs, gen, stamp, memo, hc, idx, metas, last, nops, hist, cwd, made, rc>>
+View == <<fs, gen, stamp, memo, hc, idx, metas, last, nops, cwd, made, rc>>
 
 Present(f) == fs[f] # Absent
 TargetExists(t) == IF t = "r/a" THEN Present("a") ELSE TRUE
@@ -105,9 +112,15 @@ Step == nops < MaxOps /\ nops' = nops + 1
 \* configuration file (the parser and its defaults are process-lifetime objects too)
 \* al: piece alignment requested (padding entries; only the v1 creator honours it) - the padding buffers of
 \* the hasher are one more thing that must not survive from one create to the next
+NotListed == <<-1, -1>>
 Create(t, v, pl, route, al) == /\ Step /\ TargetExists(t) /\ FreshListing(t) # {}
                 /\ last' = [op |-> "create", want |-> FreshCreate(t),
                             got |-> IF cwd = "moved" THEN [kind |-> "error", files |-> {}, sizes |-> <<>>, gens |-> <<>>] ELSE ToolCreate(t)]
+                /\ made' = (LET g == last'.got IN
+                            IF g.kind = "meta"
+                            THEN [made EXCEPT ![t] = [f \in Files |-> IF f \in g.files THEN <<g.sizes[f], g.gens[f]>> ELSE NotListed]]
+                            ELSE made)
+                /\ rc' = rc
                 /\ memo' = Store(memo, t)
                 /\ metas' = metas \cup {t}
                 /\ hc' = (IF Variant = "statcache"
@@ -123,7 +136,7 @@ CreateFail(t, v) == /\ Step /\ (~TargetExists(t) \/ FreshListing(t) = {})
                     /\ last' = [op |-> "createfail", got |-> "error", want |-> "error"]
                     /\ Log([op |-> "createfail", target |-> t, version |-> v])
                     /\ cwd' = (IF Variant = "cwdleak" /\ TargetExists(t) /\ v = 1 THEN "moved" ELSE cwd)
-                    /\ UNCHANGED <<fs, gen, stamp, memo, hc, idx, metas>>
+                    /\ UNCHANGED <<fs, gen, stamp, memo, hc, idx, metas, made, rc>>
 Mutate(kind, f) ==
     /\ Step
     /\ CASE kind = "add"     -> ~Present(f) /\ \E s \in 0 .. MaxSize : fs' = [fs EXCEPT ![f] = s] /\ gen' = gen
@@ -137,31 +150,40 @@ Mutate(kind, f) ==
     /\ stamp' = (IF Variant = "statcache" /\ kind # "rewritekeep" THEN [stamp EXCEPT ![f] = (stamp[f] + 1) % 4] ELSE stamp)
     /\ last' = [op |-> "none", got |-> 0, want |-> 0]
     /\ Log([op |-> kind, file |-> PathOf(f), size |-> fs'[f]])
-    /\ UNCHANGED <<memo, hc, idx, metas, cwd>>
+    /\ UNCHANGED <<memo, hc, idx, metas, cwd, made, rc>>
 \* operations on an existing metafile: no process-lifetime state is involved
 Use(kind, t) == /\ Step /\ t \in metas /\ (kind = "recheck" => TargetExists(t) \/ t # "r/a")
                 /\ last' = [op |-> kind, got |-> 0, want |-> 0]
                 /\ Log([op |-> kind, target |-> t])
-                /\ UNCHANGED <<fs, gen, stamp, memo, hc, idx, metas, cwd>>
+                /\ UNCHANGED <<fs, gen, stamp, memo, hc, idx, metas, cwd, made, rc>>
 \* rebuild searches the directories it is given: the content root itself ("own"), an empty directory,
 \* a directory holding a copy of r/a only ("part"), or one holding same-named, same-sized files with OTHER content
 \* ("decoy": every candidate is hashed and rejected, nothing is found); what it can find is what is there NOW
 Avail(search) == CASE search = "own" -> {f \in Files : Present(f)}
                    [] search = "part" -> {f \in {"a"} : Present(f)}
                    [] OTHER -> {}
+\* a candidate is PLACED when its length and its bytes are the ones the metafile records; the bytes the tool judges are
+\* the ones on disk now - in the "rootcache" variant the ones its remembered root was computed from
+RootHit(f) == Variant = "rootcache" /\ rc[f].has /\ rc[f].size = fs[f]
+Judged(f) == IF RootHit(f) THEN rc[f].gen ELSE gen[f]
 Rebuild(t, search) ==
     /\ Step /\ t \in metas
-    /\ last' = [op |-> "rebuild", want |-> Avail(search),
-                got |-> IF cwd = "moved" THEN {}
-                        ELSE IF Variant = "sharedindex" THEN Avail(search) \cup {f \in idx : Present(f)} ELSE Avail(search)]
+    /\ LET cands == IF Variant = "sharedindex" THEN Avail(search) \cup {f \in idx : Present(f)} ELSE Avail(search) IN
+       last' = [op |-> "rebuild", want |-> {f \in Avail(search) : made[t][f] = <<fs[f], gen[f]>>},
+                got |-> IF cwd = "moved" THEN {} ELSE {f \in cands : made[t][f] = <<fs[f], Judged(f)>>}]
     /\ idx' = (IF Variant = "sharedindex" THEN idx \cup Avail(search) ELSE idx)
+    /\ rc' = (IF Variant = "rootcache"
+              THEN [f \in Files |-> IF f \in Avail(search) /\ ~RootHit(f) THEN [has |-> TRUE, size |-> fs[f], gen |-> gen[f]] ELSE rc[f]]
+              ELSE rc)
     /\ Log([op |-> "rebuild", target |-> t, search |-> search])
-    /\ UNCHANGED <<fs, gen, stamp, memo, hc, metas, cwd>>
+    /\ UNCHANGED <<fs, gen, stamp, memo, hc, metas, cwd, made>>
 
 Init == /\ fs \in [Files -> {Absent, 1}] /\ gen = [f \in Files |-> 0] /\ stamp = [f \in Files |-> 0]
         /\ hc = [f \in Files |-> NoHash] /\ idx = {}
         /\ memo = [k \in {"r", "r/d", "r/a", "r/d/b", "r/d/c"} |-> NoEntry]
         /\ metas = {} /\ last = [op |-> "none", got |-> 0, want |-> 0] /\ nops = 0 /\ cwd = "base"
+        /\ made = [t \in Targets |-> [f \in Files |-> NotListed]]
+        /\ rc = [f \in Files |-> [has |-> FALSE, size |-> 0, gen |-> 0]]
         /\ hist = <<[op |-> "init", fs |-> fs]>>
 Next == \/ \E t \in Targets, v \in 1 .. 3, pl \in 1 .. 2, rt \in {"lib", "cli", "clitracker", "cliconfig"}, al \in BOOLEAN :
               Create(t, v, pl, rt, al /\ v = 1)
